@@ -78,7 +78,7 @@ Proof.
   intros [|f]; [reflexivity|]. unfold deframe_pinned. cbn [deframe].
   replace (outer_step false UdpDeframeBuf UdpRefillBelow UdpMaxRecord UdpWriteBatch (ust0 [0; 5; 97; 98] [] 0 false None))
     with (OCont {| s_buf := [0; 5; 97; 98]; s_pend := []; s_w := w0 None;
-                   s_t := {| t_rd := {| rest := []; cuts := []; endk := 0 |}; t_wd := false |}; s_err := 0 |})
+                   s_t := {| t_rd := {| rest := []; cuts := []; endk := 0; carry := false |}; t_wd := false |}; s_err := 0 |})
     by (vm_compute; reflexivity).
   apply (pinned_spins_on_partial_record false _ _ _ _ refill_above_max_record refill_below_buffer write_batch_positive eq_refl);
     vm_compute; try reflexivity; discriminate.
